@@ -493,6 +493,14 @@ impl Prop for OtherIterators {
                     ctx.class("record set walked");
                     walk("fasta/RecordSetIter", set.into_iter(), n, extra)?;
                     copy.clone_from(&set);
+                    if exact % 2 == 1 {
+                        copy.shrink_buffer_to_fit();
+                    }
+                    // the line iterators of the records of the (recycled, possibly shrunk) copy run to their announced end
+                    for r in &copy {
+                        let announced = r.seq_lines().len();
+                        ensure!(r.seq_lines().count() == announced && r.seq_lines().rev().count() == announced && r.num_seq_lines() == announced, "fasta/clone_from/seq_lines", "a record of the copy announces {} lines but yields {} forwards / {} backwards", announced, r.seq_lines().count(), r.seq_lines().rev().count());
+                    }
                     ensure!(copy.len() == n, "fasta/clone_from/len", "clone_from() of a set with {} records gives a set with len() {}", n, copy.len());
                     walk("fasta/RecordSetIter(clone_from)", copy.into_iter(), n, extra)?;
                     let a: Vec<Vec<u8>> = set.into_iter().map(|r| { use fasta::Record; r.head().to_vec() }).collect();
